@@ -261,11 +261,17 @@ def immersed_body_flow_interaction_wiring(K, dim, reset):
 
     obj.compute_interaction_force_on_lag_grid = rec("lag_only")
     obj.compute_interaction_forcing = rec("eul_and_lag")
-    for entry, expected in (("compute_interaction_on_lag_grid", "lag_only"), ("__call__", "eul_and_lag"),
-                            ("compute_flow_forces_and_torques", "lag_only")):
+    # (__call__ is specified semantically in interaction_call_semantics: any implementation that produces the
+    # documented forcing field is accepted there)
+    for entry, expected in (("compute_interaction_on_lag_grid", "lag_only"), ("compute_flow_forces_and_torques", "lag_only")):
         ForcingGridStub.log = []
         calls.clear()
-        getattr(obj, entry)()
+        try:
+            getattr(obj, entry)()
+        except Exception as e:  # noqa: BLE001  -- with the evaluation methods replaced by recorders nothing else may run
+            K.ensures(f"{entry}:only_dispatches_to_the_evaluation_methods", False,
+                      note=f"did work of its own and raised {type(e).__name__}: {e}"[:300])
+            continue
         ok = len(calls) == 1 and calls[0][0] == expected and calls[0][3][:2] == ["position", "velocity"]
         K.ensures(f"{entry}:positions_then_velocities_then_{expected}_evaluation", ok)
         if not ok:
@@ -341,3 +347,75 @@ def brinkmann_penalise_lagrangian(K, dim):
         K.ensures_eq(f"convex_combination{list(idx)}", o, theta * a + (1 - theta) * b)
         K.ensures_eq(f"identity_for_zero_penalty{list(idx)}", o, a, when=(lam * dt == 0))
         K.ensures_eq(f"distance_to_target_contracts{list(idx)}", (o - b) * (1 + lam * dt), a - b)
+
+
+@unit("interaction_call_semantics", props=("C10",), kernels=True, configs=[dict(dim=d, reset=r) for d in (2, 3) for r in (False, True)])
+def interaction_call_semantics(K, dim, reset):
+    """ImmersedBodyFlowInteraction.__call__ through the REAL object: marker positions / velocities are refreshed from the
+    forcing grid first, then the Eulerian forcing field ends as (prior content | zero in reset mode) + spread marker force,
+    over the whole grid; the flow velocity field and the integral are untouched.  (The Lagrangian evaluation is used
+    through its contract, proved in virtual_boundary_methods.)"""
+    if K.mode != "sym":
+        return None
+    from svx import objnp
+    from svx.symnp import SymReal64 as SymReal
+    n_mark = 2
+    shape = tuple(K.ext(n, lo=4) for n in ("nz", "ny", "nx")[3 - dim:])
+    dx = K.real("dx", pos=True)
+    h = K.real("max_lag_grid_spacing", pos=True)
+    K.requires(and_(h <= 2 * dx, h >= dx / 2))
+    u = K.field("eul_grid_velocity_field", (dim,) + shape)
+    f = K.field("eul_grid_forcing_field", (dim,) + shape)
+
+    class _Flags:
+        writeable = True
+    type(u).flags = property(lambda self: self.__dict__.setdefault("_flags", _Flags()))
+    m = {(a, i): K.int(f"m{a}_{i}", lo=1, hi=shape[dim - 1 - a] - 3) for a in range(dim) for i in range(n_mark)}
+    order = []
+
+    class Grid(ForcingGridStub):
+        def compute_lag_grid_position_field(self):
+            order.append("position")
+
+        def compute_lag_grid_velocity_field(self):
+            order.append("velocity")
+
+    with object_array_modules(VB_MOD, IB_MOD):
+        cls = K.repo(f"{IB_MOD}:ImmersedBodyFlowInteraction")
+        obj = cls(eul_grid_forcing_field=f, eul_grid_velocity_field=u, body_flow_forces=objnp.fresh("bf", (3, 3)),
+                  body_flow_torques=objnp.fresh("bt", (3, 2)), forcing_grid_cls=Grid,
+                  virtual_boundary_stiffness_coeff=K.real("k"), virtual_boundary_damping_coeff=K.real("c"), dx=dx, grid_dim=dim,
+                  real_t=SymReal, enable_eul_grid_forcing_reset=reset, num_lag_nodes=n_mark, spacing=h)
+        I = objnp.fresh("integral_I", (dim, n_mark))
+        obj.lag_grid_position_mismatch_field[...] = I
+        seen = []
+
+        def lag_summary(eul_grid_velocity_field, lag_grid_position_field, lag_grid_velocity_field):
+            seen.append((list(order), eul_grid_velocity_field, lag_grid_position_field, lag_grid_velocity_field))
+            obj.lag_grid_forcing_field[...] = objnp.fresh("marker_force", (dim, n_mark))
+            obj.interp_weights[...] = objnp.fresh("weights", (2 * W,) * dim + (n_mark,))
+            for idx in np.ndindex(dim, n_mark):
+                obj.nearest_eul_grid_index_to_lag_grid[idx] = m[idx]
+
+        obj.compute_interaction_force_on_lag_grid = lag_summary
+        obj()
+    K.ensures("one_lagrangian_evaluation_after_refreshing_positions_then_velocities",
+              len(seen) == 1 and seen[0][0][:2] == ["position", "velocity"])
+    if len(seen) == 1:
+        K.ensures("evaluation_sees_the_grid_fields_and_the_flow_velocity",
+                  seen[0][2] is obj.forcing_grid.position_field and seen[0][3] is obj.forcing_grid.velocity_field
+                  and getattr(seen[0][1], "buf", None) is u.buf)
+    F, wts = obj.lag_grid_forcing_field, obj.interp_weights
+    cc = K.cell(shape)
+    for comp in range(dim):
+        add = 0
+        for i in range(n_mark):
+            for kk, cell in _win_cells(dim, m, i):
+                hit = and_(*[cc[ax] == cell[ax] for ax in range(dim)])
+                add = add + ite_(hit, S_(F[comp, i]) * S_(wts[kk + (i,)]), 0)
+        base = 0 if reset else K.old(f, (comp,) + cc)
+        K.ensures_eq(f"forcing_field_is_{'zero' if reset else 'prior_content'}_plus_spread_marker_force[{comp}]",
+                     K.value(f, (comp,) + cc), base + add)
+    K.unchanged("flow_velocity_field_never_modified", u)
+    for idx in np.ndindex(dim, n_mark):
+        K.ensures_eq(f"integral_unchanged{list(idx)}", obj.lag_grid_position_mismatch_field[idx], I[idx])
